@@ -444,7 +444,7 @@ func VerifC09Linear() {
 // VerifC09Forks: block trees, every block goes through the builder and verifier questions (a new block may extend any
 // processing block or the last accepted one), accepts reject the other branches, restarts; one transaction.
 func VerifC09Forks() {
-	c09History(verifParam("ops", 4, 5), verifParam("maxBlocks", 3, 4), 1, true, 0, false)
+	c09History(verifParam("ops", 4, 5), verifParam("maxBlocks", 3, 3), 1, true, 0, false)
 }
 
 // VerifC09ExpiryZero: the same chains with one transaction whose expiry is 0 (valid only in blocks with timestamp 0).
